@@ -134,6 +134,9 @@ func replayFsck(c *core.Ctx, lfsBin string, b *behaviour, idx int) (*core.Violat
 
 func init() {
 	registry["C13"] = func(c *core.Ctx, replay string) {
+		if replayBehaviourOnly(c, replay, replayFsck, "model_checking") {
+			return
+		}
 		c.Level = "model_checking"
 		lfs := c.BuildLFS()
 		cfg, budget := "Fsck_q.cfg", 320
